@@ -4,14 +4,16 @@
 
    One case per input line, tokens separated by blanks (all integers decimal; words are unsigned 64-bit):
      id nfuns { pwords nparam nret ssize  ncode { OpName operands.. }  nconst {word}  ntables { min noffs {off} }
-                nup { pos size is_closure } }
-        gsize next { code arity }            (code 255 = an external function the model does not know; 200 + op = array builtin)
+                nup { pos size is_closure }  new { pc elem_words } }      (the annotation f_ew of Bvm/Model.v)
+        gsize next { code arity }            (code 255 = an external function the model does not know; 200 + op = array builtin;
+                                              199 = _mimium_schedule_at)
         dsp(-1 = none) ntypes {0|1 (1 = no boxed reference inside)} ntrees {tree} fuel do_verify do_run nsamples { now_bits nin {word} }
         tree := P | B tree | S name n {0 | 1 tree} | T n {size tree} | A name
    One answer line per case:
      #id V <0|1|-> [first failing: fn pc | B <fuel bound of dsp or -> S <- | F fault | U unsup | T>] | main ; sample ; ...
        (S: where the INSTRUMENTED semantics stops on an accepted program: - = every call returned)
      outcome := R n pos O {word} W {word} C closures.len heap.len  |  F <fault>  |  U <unsupported>  |  T
+                | D   (a queued scheduler task is due at this sample: the model stops here)
    The program runs on the extended machine of Bvm/XModel.v (strict = false: the transcription of vm.rs).
    The arithmetic record handed to the model is real IEEE double arithmetic on bit patterns (Int64.float_of_bits),
    the libm of this machine for sin cos pow log; `now` is the value the dump gives for the sample. *)
@@ -65,6 +67,9 @@ let f_to_i64 (x : float) : int64 =
   else if x >= 9223372036854775808.0 then Int64.max_int
   else if x <= -9223372036854775808.0 then Int64.min_int
   else Int64.of_float x
+(* Rust `x as u64` (saturating, NaN -> 0), as a float again for comparison *)
+let f_to_u64 (x : float) : float =
+  if Float.is_nan x || x <= 0.0 then 0.0 else if x >= 18446744073709551615.0 then 18446744073709551615.0 else Float.trunc x
 (* f64::min / f64::max as compiled on this machine: NaN loses; on a tie (-0.0 against 0.0) the FIRST operand is returned *)
 let rust_min a b = if Float.is_nan a then b else if b < a then b else a
 let rust_max a b = if Float.is_nan a then b else if b > a then b else a
@@ -190,8 +195,13 @@ let fn_of (r : rd) : fn =
     let sz = nn r in
     let isc = int r = 1 in
     { u_pos = ps; u_size = sz; u_isc = isc }) in
+  let new_ = int r in
+  let ews = times new_ (fun () ->
+    let pc = nn r in
+    let w = nn r in
+    (pc, w)) in
   { f_pwords = pwords; f_nparam = nparam; f_nret = nret; f_code = code; f_consts = consts; f_jt = tabs; f_ssize = ssize;
-    f_up = ups }
+    f_up = ups; f_ew = ews }
 
 let prog_of (r : rd) : program =
   let nf = int r in
@@ -203,6 +213,7 @@ let prog_of (r : rd) : program =
     let ar = int r in
     (* 255: unknown; 200 + op: an array builtin, its second number is the element width of a `$arityN` specialisation *)
     if code = 255 then ExtOther
+    else if code = 199 then ExtSched
     else if code >= 200 then ExtArr (n_of_int (code - 200), n_of_int ar)
     else ExtPure (n_of_int code, n_of_int ar)) in
   let dsp = int r in
@@ -234,6 +245,7 @@ let fault_name = function
   | NoClosureEnv -> "NoClosureEnv" | UpvalueIndexOOB -> "UpvalueIndexOOB"
   | Dyn DynHandle -> "DynHandle" | Dyn DynUpvalue -> "DynUpvalue" | Dyn DynSignature -> "DynSignature"
   | Dyn DynReentry -> "DynReentry" | Dyn DynOpenWrite -> "DynOpenWrite" | Dyn DynCellWidth -> "DynCellWidth"
+  | Dyn DynElemWidth -> "DynElemWidth"
 let unsup_name = function UnsupInstr -> "UnsupInstr" | UnsupExt -> "UnsupExt" | UnsupNretFallback -> "UnsupNretFallback" | UnsupBoxed -> "UnsupBoxed"
 
 let add_words b (l : z list) = List.iter (fun w -> Buffer.add_string b (Printf.sprintf " %Lu" (u64_of_z w))) l
@@ -315,6 +327,12 @@ let run_case (line : string) : string =
        | XRet (_, m) ->
            let m = ref m and go = ref true in
            List.iter (fun (now, ins) ->
+             (* a task `_mimium_schedule_at` queued is due at this sample: the scheduler plugin of the real VM runs it before
+                dsp; the model does not (the task queue is not modelled): the comparison ends here *)
+             if !go && List.exists (fun (tw, _) -> f_to_u64 (fl tw) <= f_to_u64 (fl now)) (!m).x_tasks then begin
+               Buffer.add_string b " ; D";
+               go := false
+             end;
              if !go then begin
                let o = xexec_dsp (arith_of now) p strict fuel_d ins !m in
                Buffer.add_string b " ; ";
